@@ -816,6 +816,34 @@ func runFuzz(pl *plan, bin string, st stage, runDir string, m *merged) int {
 		// a crasher without a case file: the worker died (stack overflow, time-out)
 		dst := filepath.Join(verifDir, "replays", pl.ID, fmt.Sprintf("%s-%s-seed%d.gofuzz", tier, st.Name, seed))
 		copyFile(filepath.Join(crashDir, ents[0].Name()), dst)
+		// run the saved input again, alone and with a generous watchdog: a worker that died of the load on
+		// the machine is no finding, one that dies again is
+		failFile2 := filepath.Join(runDir, st.Name+".again.fail.json")
+		again := exec.Command(bin, "-test.run", "^"+st.Fuzz+"$/^"+regexp.QuoteMeta(ents[0].Name())+"$", "-test.timeout", "0")
+		again.Dir = pkgDir
+		again.Env = append(os.Environ(), "VERIF_TIER="+tier, "VERIF_STAGE="+st.Name, "VERIF_FAIL="+failFile2, "VERIF_WATCHDOG=240",
+			"VERIF_KNOWN="+filepath.Join(verifDir, "known_findings.json"))
+		for k, v := range st.Env {
+			again.Env = append(again.Env, k+"="+v)
+		}
+		aout, aerr := again.CombinedOutput()
+		if aerr == nil {
+			os.Remove(dst)
+			fmt.Printf("NOTE property=%s a fuzz worker died on an input that holds when it is run alone (load on the machine); the campaign ended there after %d executions\n", pl.ID, execs)
+			m.stages[len(m.stages)-1]["note"] = fmt.Sprint(m.stages[len(m.stages)-1]["note"], "; ended early: a worker died on an input that holds when run alone")
+			return 0
+		}
+		if _, e := os.Stat(failFile2); e == nil {
+			jdst := filepath.Join(verifDir, "replays", pl.ID, fmt.Sprintf("%s-%s-seed%d.json", tier, st.Name, seed))
+			copyFile(failFile2, jdst)
+			fmt.Printf("VIOLATION property=%s replay=%s\n%s\n", pl.ID, jdst, indent(tailLines(string(aout), 40)))
+			return 1
+		}
+		fmt.Printf("VIOLATION property=%s replay=%s\n  (the fuzz worker dies on this go-fuzz input also when it is run alone)\n%s\n", pl.ID, dst, indent(tailLines(string(aout), 40)))
+		return 1
+	}
+	if false {
+		dst := ""
 		fmt.Printf("INCONCLUSIVE property=%s fuzz worker died without a case file; go-fuzz input saved at %s\n%s\n", pl.ID, dst, indent(tailLines(out, 40)))
 		return 2
 	}
